@@ -1,4 +1,5 @@
 from datetime import datetime
+from io import BytesIO
 from pathlib import Path
 from typing import IO, List, Optional, Type, Union
 
@@ -364,7 +365,13 @@ class Tdf:
         except StopIteration:
             raise ValueError(f"Block limit reached ({len(self.entries)})")
 
-        # write new entry with the offset of that unused slot
+        if any(
+            entry.type != BlockType.unusedSlot
+            for entry in self.entries[unusedBlockPos + 1 :]
+        ):
+            raise IOError("All unused slots must be at the end of the file")
+
+        # new entry with the offset of that unused slot
         new_entry = TdfEntry(
             type=newBlock.type,
             format=newBlock.format.value,
@@ -376,27 +383,31 @@ class Tdf:
             comment=comment,
         )
 
+        # serialize the entry and the block before touching the file, so that
+        # a block or comment that can't be encoded leaves the file as it was
+        entryBuffer = BytesIO()
+        new_entry._write(entryBuffer)
+        blockBuffer = BytesIO()
+        newBlock._write(blockBuffer)
+
         # replace the entry
         self.entries[unusedBlockPos] = new_entry
 
         # write new entry
         self.handler.seek(64 + 288 * unusedBlockPos, 0)
-        new_entry._write(self.handler)
+        self.handler.write(entryBuffer.getvalue())
 
         # update all unused slots's offset
         for n, entry in enumerate(
             self.entries[unusedBlockPos + 1 :], start=unusedBlockPos + 1
         ):
-            if entry.type == BlockType.unusedSlot:
-                entry.offset = new_entry.offset + new_entry.size
-                self.handler.seek(64 + 288 * n, 0)
-                entry._write(self.handler)
-            else:
-                raise IOError("All unused slots must be at the end of the file")
+            entry.offset = new_entry.offset + new_entry.size
+            self.handler.seek(64 + 288 * n, 0)
+            entry._write(self.handler)
 
         # write new block
         self.handler.seek(new_entry.offset, 0)
-        newBlock._write(self.handler)
+        self.handler.write(blockBuffer.getvalue())
 
         # ensure the file is the correct size
         # and that the changes are written to disk
